@@ -748,6 +748,19 @@ def gen_float(rng, tier):
                     e = rng.randint(1, 2046)
                     vals = [(v & ~(0x7FF << 52)) | (min(2046, max(1, e + rng.randint(-3, 3))) << 52) for v in vals]
                 ops.append(f"float.rt p={p} m={m} {explicit(vals)}")
+            # exponent spreads on both sides of the 8-bit delta limit of the common-exponent layout; the extreme
+            # values either carry into the next exponent when rounded or do not
+            for spread in (254, 255, 256, 257):
+                for hi_carry in (False, True):
+                    for lo_carry in (False, True):
+                        elo = rng.randint(1, 2046 - spread)
+                        ones = (1 << 52) - 1
+                        flo = ones if lo_carry else rng.getrandbits(40)
+                        fhi = ones if hi_carry else rng.getrandbits(40)
+                        vals = [(elo << 52) | flo, ((elo + spread) << 52) | fhi]
+                        mid = [s_ | (rng.randint(elo, elo + spread) << 52) | rng.getrandbits(52)
+                               for s_ in (0, 1 << 63)]
+                        ops.append(f"float.rt p={p} m={m} {explicit(vals + mid)}")
             if tier != "quick":
                 ops.append(f"float.rt p={p} m={m} {explicit([rnd() for _ in range(3000)])}")
     thr = [dbits(2.0 ** -23), dbits(2.0 ** -10), dbits(2.0 ** -4)]
@@ -771,13 +784,12 @@ def gen_adaptive(rng, tier, slice_only=False):
     lens = [1, 2, 3, 5, 19, 20, 100, 101, 255, 256, 1000, 4096, 4097] + ([9999, 10000, 10001, 20000, 65537] if big else [10001])
     ops.append("adaptive.rt 0")
     reps = 1 if slice_only else (2 if tier == "quick" else 8)
-    for n in lens:
+    for n in sorted(set(lens + [9999, 10000, 10001])):
         for _ in range(reps):
-            # DICT leaf
-            ops.append(f"adaptive.rt @u:{hx(rng.getrandbits(60))}:{hx(n)}:{hx(rng.choice([0, 7, 1 << 40]))}:{hx(rng.choice([1, 3, 9]))}")
-            ops.append(f"adaptive.rt @c:1:{hx(n)}:{hx(rng.choice([0, 5, M64]))}:0")
-            # BITMAP leaf: strictly ascending below 65536, dense
-            if n <= 9999 and n >= 2:
+            only_bitmap_like = n not in lens
+            # BITMAP leaf: strictly ascending below 65536, dense; at and above 10000 elements uniqueness is only
+            # sampled, so the same inputs with a duplicate the sampler cannot see must not go to BITMAP
+            if n <= 10001 and n >= 2:
                 span = min(65535, n * rng.choice([1, 2, 5, 15, 19, 21, 40]))
                 if span >= n:
                     lo = rng.randint(0, 65535 - span)
@@ -788,6 +800,17 @@ def gen_adaptive(rng, tier, slice_only=False):
                     dup = list(vals)
                     dup[rng.randrange(1, n)] = dup[0] if n > 1 else dup[0]
                     ops.append(f"adaptive.rt {explicit(sorted(dup))}")
+                    if n > 30:
+                        dup = list(vals)
+                        j = rng.randrange(11, n - 1)
+                        j += 1 if j % 10 == 0 else 0
+                        dup[j] = dup[j - 1]
+                        ops.append(f"adaptive.rt {explicit(dup)}")
+            if only_bitmap_like:
+                continue
+            # DICT leaf
+            ops.append(f"adaptive.rt @u:{hx(rng.getrandbits(60))}:{hx(n)}:{hx(rng.choice([0, 7, 1 << 40]))}:{hx(rng.choice([1, 3, 9]))}")
+            ops.append(f"adaptive.rt @c:1:{hx(n)}:{hx(rng.choice([0, 5, M64]))}:0")
             # DELTA leaves
             ops.append(f"adaptive.rt @a:{hx(rng.getrandbits(60))}:{hx(n)}:{hx(rng.choice([0, 1000, 1 << 50]))}:{hx(n * rng.choice([1, 10, 900, 5000]))}")
             ops.append(f"adaptive.rt @d:{hx(rng.getrandbits(60))}:{hx(n)}:{hx(rng.choice([0, 1000, 1 << 50]))}:{hx(n * rng.choice([1, 10, 900, 5000]))}")
